@@ -20,19 +20,35 @@ Theorem C10_runner_no_crash : forall c l, run_lifed c = VL l -> ~ In CRASHED l.
 Proof. exact run_lifed_no_crash. Qed.
 Print Assumptions C10_runner_no_crash.
 
-(* once both sides of connection j are closed (the transport reported the disconnect, or the server object is gone),
+(* once both sides of connection j are closed (the transport reported the disconnect, or the HTTP socket went with the server),
    then after any further operations, one event-loop turn releases the HTTP socket with its TCP socket, the copier
    and the file, and they stay released under every continuation *)
 Theorem C10_released_after_close : forall g, guard g = true -> forall ops1 w j c,
-  run_world g world0 ops1 = Some w -> nth_error (conns w) j = Some c -> closed w c ->
+  run_world g world0 ops1 = Some w -> nth_error (conns w) j = Some c -> closed c ->
   forall ops2 ops3, exists w' c',
     run_world g w (ops2 ++ LTurn :: ops3) = Some w' /\ nth_error (conns w') j = Some c' /\ released c'.
 Proof. exact released_after_close. Qed.
 Print Assumptions C10_released_after_close.
 
+(* the destruction of the server closes every connection that is still its child (a socket adopted by a ProxyHandler
+   lives on until its peer disconnects, and is then covered by the theorem above) *)
+Theorem C10_destroyed_server_closes_owned : forall g, guard g = true -> forall ops w j c,
+  run_world g world0 ops = Some w -> srv w = false -> nth_error (conns w) j = Some c -> owned c = true -> closed c.
+Proof. exact destroyed_server_closes_owned. Qed.
+Print Assumptions C10_destroyed_server_closes_owned.
+
+Theorem C10_adopted_socket_outlives_server :
+  let g := mkCfg 4 0 25 25 25 true in
+  exists w1 c1 w2 c2,
+    run_world g world0 [LOpen; LFeed 0 25; LDestroy; LTurn] = Some w1 /\ nth_error (conns w1) 0 = Some c1 /\
+    h c1 = true /\ owned c1 = false /\
+    run_world g w1 [LDrop 0; LTurn] = Some w2 /\ nth_error (conns w2) 0 = Some c2 /\ h c2 = false.
+Proof. exact adopted_socket_outlives_server. Qed.
+Print Assumptions C10_adopted_socket_outlives_server.
+
 (* after any number of connections: when all of them are closed, one turn brings the live-object counts to idle *)
 Theorem C10_idle_after_all_closed : forall g, guard g = true -> forall ops1 w,
-  run_world g world0 ops1 = Some w -> (forall j c, nth_error (conns w) j = Some c -> closed w c) ->
+  run_world g world0 ops1 = Some w -> (forall j c, nth_error (conns w) j = Some c -> closed c) ->
   exists w', run_world g w [LTurn] = Some w' /\ live_copiers w' = 0%Z /\
              (forall j c', nth_error (conns w') j = Some c' -> h c' = false).
 Proof. exact idle_after_all_closed. Qed.
